@@ -4,7 +4,11 @@ package main
 // arguments, the stub clock, and harness parameters.
 
 import (
+	"bytes"
+	"fmt"
 	"go/types"
+	"github.com/yuin/goldmark"
+	"github.com/yuin/goldmark/extension"
 	"html"
 	"net"
 	"net/url"
@@ -109,6 +113,7 @@ var nativeFuncs = map[string]any{
 var fixedNow = time.Date(2026, 1, 1, 0, 0, 0, 0, time.UTC)
 
 func registerEnvIntrinsics() {
+	registerGoldmark()
 	intrinsics["time.Now"] = func(in *Interp, fr *frame, fn *ssa.Function, a []Value) (Value, bool) {
 		return in.callNative(fr, func() time.Time { return fixedNow }, fn.Signature, a)
 	}
@@ -126,4 +131,44 @@ func registerEnvIntrinsics() {
 		}
 		return a[1], true
 	}
+}
+
+// ---- goldmark (native; servitor/markdown only calls New and Convert)
+
+func registerGoldmark() {
+	intrinsics["github.com/yuin/goldmark.WithExtensions"] = func(in *Interp, fr *frame, fn *ssa.Function, a []Value) (Value, bool) {
+		return Native{"goldmark-option"}, true
+	}
+	intrinsics["github.com/yuin/goldmark.New"] = func(in *Interp, fr *frame, fn *ssa.Function, a []Value) (Value, bool) {
+		md := goldmark.New(goldmark.WithExtensions(extension.GFM))
+		return Iface{T: nativeOpaqueType, V: Native{md}}, true
+	}
+}
+
+// invokeNative dispatches an interface method call whose receiver is a
+// native object.
+func (in *Interp) invokeNative(fr *frame, recv Native, method string, args []Value) Value {
+	switch x := recv.X.(type) {
+	case goldmark.Markdown:
+		if method == "Convert" {
+			src := args[0].(Slice)
+			s := in.bytesToStr(src.B[:src.L])
+			if !s.IsConcrete() {
+				in.unsupported("Markdown source with symbolic bytes (goldmark runs natively on concrete text)")
+			}
+			var buf bytes.Buffer
+			err := x.Convert([]byte(s.S), &buf)
+			if err != nil {
+				in.unsupported("goldmark.Convert returned an error: " + err.Error())
+			}
+			// write into the interpreted *bytes.Buffer (field 0 = buf []byte)
+			w := in.resolveIface(fr, args[1])
+			p := w.V.(Ptr)
+			out := strToValues(Str{S: buf.String()})
+			(*p).(Struct)[0] = Slice{B: out, L: len(out)}
+			return Iface{}
+		}
+	}
+	in.unsupported(fmt.Sprintf("method %s on native %T", method, recv.X))
+	return nil
 }
